@@ -16,7 +16,7 @@ use serde_json::{json, Value};
 pub const META: Meta = Meta {
     id: "C13",
     level: "exploration",
-    rule: "Cases are (entity, method, header lines): methods from the standard set, lower-case look-alikes and random extension tokens; each of Range, If-Range, If-Match, If-None-Match, If-Modified-Since, If-Unmodified-Since appears 0-3 times with a value that is arbitrary HeaderValue bytes, a grammar-derived near-miss (well-formed value with one random edit), a boundary number form, or well-formed; entity length from {0,1,small,2^32,2^63,2^64-1,...} x ETag / mtime presence. Oracle: no panic in serve() or while draining, status in {200,206,304,400,405,412,413,416}, non-GET/HEAD => 405 with Allow naming GET and HEAD and no get_range call. Non-trivial = at least one malformed header value, a repeated header, or a non-GET method; distinct by fingerprint of the case.",
+    rule: "Cases are (entity, method, header lines): methods from the standard set, lower-case look-alikes and random extension tokens; each of Range, If-Range, If-Match, If-None-Match, If-Modified-Since, If-Unmodified-Since appears 0-3 times with a value that is arbitrary HeaderValue bytes, a grammar-derived near-miss (well-formed value with one random edit), a boundary number form, or well-formed; entity length from {0,1,small,2^32,2^63,2^64-1,...} x ETag / mtime presence; plus requests with 9-400 range specs and the C06 multipart / near-overflow generator. Oracle: no panic in serve() or while draining, status in {200,206,304,400,405,412,413,416}, non-GET/HEAD => 405 with Allow naming GET and HEAD and no get_range call. Non-trivial = at least one malformed header value, a repeated header, or a non-GET method; distinct by fingerprint of the case.",
     assumptions: &[
         "request values are limited to what http::HeaderValue / http::Method accept (the stated domain)",
         "bodies are drained up to a bounded prefix for astronomically large entities",
